@@ -36,6 +36,14 @@ Theorem C28_call_sites :
 Proof. vm_compute. repeat split; intro; discriminate. Qed.
 Print Assumptions C28_call_sites.
 
+(* every get-or-create helper of the Manager that stores a new counter in a map does so in a
+   write-locked section that first re-checks the map (the hypothesis [recheck = true] of
+   C28_first_requests_share_counter; without it C28_no_recheck_refuted applies) *)
+Theorem C28_get_or_create_rechecks :
+  get_or_create_recheck <> [] /\ forallb snd get_or_create_recheck = true.
+Proof. vm_compute. split; [intro; discriminate|reflexivity]. Qed.
+Print Assumptions C28_get_or_create_rechecks.
+
 Lemma deployed_window ln p evs L a :
   is_lens ln -> nondecr (flat_map ev_time evs) ->
   0 < l_pol ln p <= L -> Forall (ev_ok ln L) evs ->
